@@ -284,6 +284,71 @@ func c12(args []string) error {
 			}
 			got := <-out
 			tr.Emit(map[string]any{"ev": "out", "sc": sc, "id": got.GetID()})
+			if k%2 == 1 {
+				// the holder's feedback racing with a finish of the same seed: whichever comes first, the seed is no longer
+				// tracked afterwards, and an accepted feedback is delivered once more
+				// (both calls are recorded as pending first, then two spinning goroutines are released together - with a
+				// few dozen nanoseconds of skew that changes from round to round - so that the two calls really overlap)
+				tr.Emit(map[string]any{"ev": "call", "sc": sc, "c": "w1", "op": "finish", "id": it.GetID()})
+				tr.Emit(map[string]any{"ev": "call", "sc": sc, "c": "w2", "op": "feedback", "id": it.GetID()})
+				var ready, rel atomic.Int32
+				fin, fb := make(chan string, 1), make(chan string, 1)
+				spin := func(n int) {
+					for i := 0; i < n; i++ {
+						rel.Load()
+					}
+				}
+				go func() {
+					ready.Add(1)
+					for rel.Load() == 0 {
+					}
+					spin((k / 2 % 12) * 8)
+					fin <- c12res(reactor.MarkAsFinished(it))
+				}()
+				go func() {
+					ready.Add(1)
+					for rel.Load() == 0 {
+					}
+					spin((11 - k/2%12) * 8)
+					fb <- c12res(reactor.ReceiveFeedback(it))
+				}()
+				for i := 0; ready.Load() < 2 && i < 100000; i++ {
+					runtime.Gosched()
+				}
+				rel.Store(1)
+				a, b := "stuck", "stuck"
+				for i := 0; i < 2; i++ {
+					select {
+					case a = <-fin:
+					case b = <-fb:
+					case <-time.After(4 * time.Second):
+						i = 2
+					}
+				}
+				for _, x := range [][3]string{{"w1", "finish", a}, {"w2", "feedback", b}} {
+					if x[2] == "stuck" {
+						tr.Emit(map[string]any{"ev": "stuck", "sc": sc, "c": x[0], "op": x[1], "id": it.GetID()})
+					} else {
+						tr.Emit(map[string]any{"ev": "ret", "sc": sc, "c": x[0], "op": x[1], "id": it.GetID(), "res": x[2]})
+					}
+				}
+				if a == "stuck" || b == "stuck" {
+					stuck = true
+				}
+				if b == "nil" {
+					select {
+					case again := <-out:
+						tr.Emit(map[string]any{"ev": "out", "sc": sc, "id": again.GetID()})
+					case <-time.After(4 * time.Second):
+						tr.Emit(map[string]any{"ev": "stuck", "sc": sc, "c": "run", "op": "deliver", "id": it.GetID()})
+						stuck = true
+					}
+				}
+				if k%16 == 1 && !stuck {
+					tr.Emit(map[string]any{"ev": "snap", "sc": sc, "table": reactor.GetStateTable(), "tokens": reactor.TokensInUseForVerif(), "accepted": k + 1, "delivered": k + 1})
+				}
+				continue
+			}
 			start := make(chan struct{})
 			res := make(chan string, 2)
 			for _, c := range []string{"w1", "w2"} {
